@@ -135,6 +135,16 @@ func canonicals() []canonical {
 			out = append(out, canonical{Name: "extended+name:" + oid + "/" + shape, Tree: msg, Scope: []int{1}})
 		}
 	}
+	// modify requests with every operation code incl. increment (3) and unassigned ones, each with an empty, a
+	// one-element and a two-element value set
+	for opc := int64(0); opc <= 5; opc++ {
+		var changes []sber.Change
+		for _, vals := range [][][]byte{{}, {[]byte("5")}, {[]byte("1"), []byte("x")}} {
+			changes = append(changes, sber.Change{Op: opc, Attr: sber.Attr{Type: []byte("uidNumber"), Vals: vals}})
+		}
+		msg := sber.Seq(sber.Int(80+opc), sber.ModifyRequest([]byte("cn=alice,dc=example"), changes))
+		out = append(out, canonical{Name: fmt.Sprintf("modify+op%d-with-0-1-2-values", opc), Tree: msg, Scope: []int{1, 1}})
+	}
 	// long lists (well-formed): element counts around 8, 16 and 32 in every client-sized list. Only the message ID
 	// subtree is mutated (the shapes are covered by the short canonicals); what matters here is the count.
 	for _, n := range []int{8, 9, 16, 17, 33} {
